@@ -193,6 +193,27 @@ class TermBuilder:
         return self.atoms[key]
 
     # ------------------------------------------------------------------ helpers
+    def strip_updates(self, p: Poly, _d: int = 0) -> Poly:
+        """Container identity for metadata (shape/device): element updates and loop-carried
+        re-bindings of the same container do not change it."""
+        a = single_atom(self, p)
+        if a is None or _d > 8:
+            return p
+        if a.kind == "upd" and a.sub:
+            return self.strip_updates(a.sub[0], _d + 1)
+        if a.kind == "phi":
+            alts = []
+            for s_ in a.sub:
+                r = self.strip_updates(s_, _d + 1)
+                ra = single_atom(self, r)
+                if ra is not None and ra.kind == "rec":
+                    continue
+                if r not in alts:
+                    alts.append(r)
+            if len(alts) == 1:
+                return alts[0]
+        return p
+
     def in_nograd(self, node: Node) -> bool:
         """Is the CFG node lexically inside `with torch.no_grad()` (or inference_mode)?"""
         s = node.stmt if node.stmt is not None else node.ast
@@ -263,14 +284,25 @@ class TermBuilder:
                 if self.selfname and root == self.selfname:
                     # local redefinition of self.attr inside this function?
                     defs = self.cfg.defs_reaching(at, d)
-                    if defs and all(dn.kind == "stmt" for dn in defs) and len(defs) == 1:
+                    if defs and all(dn.kind == "stmt" for dn in defs) and len(defs) == 1 and self.cfg.dominates(defs[0], at):
                         v = self.cfg.value_of_def(defs[0], d)
                         if v is not None and (d, defs[0].id) not in _seen and not isinstance(defs[0].ast, ast.AugAssign):
                             return self._term(v, defs[0], _seen | {(d, defs[0].id)})
+                    # simple @property (single return expression): substitute its body
+                    if self.fn.cls is not None and d.count(".") == 1 and self.depth >= 0 and len(self._stack) < 4:
+                        prop = self.repo.find_method(self.fn.cls, d.split(".")[1])
+                        if prop is not None and prop.has_decorator("property") and prop.qualname not in self._stack:
+                            body = [b for b in prop.node.body if not (isinstance(b, ast.Expr) and isinstance(b.value, ast.Constant))]
+                            if len(body) == 1 and isinstance(body[0], ast.Return) and body[0].value is not None:
+                                sub = TermBuilder(self.repo, prop, self.atoms, self.depth, _stack=self._stack)
+                                rn = sub.cfg.node_of(body[0])
+                                if rn is not None:
+                                    return sub.term(body[0].value, rn)
                     return self.mk(f"attr:{d}", "attr", [f"attr:{d}"], e, name=d)
                 base = self._name(ast.Name(id=root, ctx=ast.Load()), at, _seen)
                 rest = d.split(".", 1)[1]
                 if rest in ("shape", "device", "dtype", "ndim"):
+                    base = self.strip_updates(base)
                     return self.mk(f"meta:{base.key()}.{rest}", "meta", [], e)
                 return self.mk(f"attrof:{base.key()}.{rest}", "attrof", self.origins(base) | {f"field:{rest}"}, e, [base], name=rest)
             base = self._term(e.value, at, _seen)
@@ -711,3 +743,35 @@ def bind_arg(fn: Fn, call: ast.Call, param: str) -> Optional[ast.AST]:
         if p.arg == param and d is not None:
             return d
     return None
+
+
+# ------------------------------------------------------------------------------------------------
+def walk_atoms(tb: "TermBuilder", p: Poly, under_ng: bool = False, path: Tuple[str, ...] = (),
+               _seen: Optional[Set[str]] = None) -> Iterable[Tuple[Atom, bool, Tuple[str, ...]]]:
+    """All atoms of p, recursively through sub-terms: (atom, under no-grad?, names of enclosing atoms)."""
+    _seen = _seen if _seen is not None else set()
+    for k in sorted(p.atoms()):
+        a = tb.atoms.get(k)
+        if a is None:
+            continue
+        ng = under_ng or a.nograd
+        yield a, ng, path
+        tag = k + "|" + ">".join(path[-3:])
+        if tag in _seen:
+            continue
+        _seen.add(tag)
+        for s in a.sub:
+            yield from walk_atoms(tb, s, ng, path + (a.name or a.kind,), _seen)
+
+
+def single_atom(tb: "TermBuilder", p: Poly) -> Optional[Atom]:
+    if len(p.t) != 1:
+        return None
+    (m, c), = p.t.items()
+    if len(m) != 1 or m[0][1] != 1 or c != 1:
+        return None
+    return tb.atoms.get(m[0][0])
+
+
+def mentions(tb: "TermBuilder", p: Poly, pred: Callable[[Atom], bool]) -> bool:
+    return any(pred(a) for a, _, _ in walk_atoms(tb, p))
